@@ -3,6 +3,7 @@
 package specgen
 
 import (
+	"go/ast"
 	"encoding/json"
 	"errors"
 	"fmt"
@@ -477,6 +478,15 @@ func observe(c gengo.Context, bh Behav, gen string, named *types.Named) {
 	}
 	sort.Strings(ips)
 	vals["imports"] = strings.Join(ips, ",")
+	// the declaration the type's position resolves to (looked up across the package's files)
+	switch d := pkg.Decl(obj.Pos()).(type) {
+	case nil:
+		vals["decl"] = "none"
+	case *ast.GenDecl:
+		vals["decl"] = fmt.Sprintf("%s with %d spec(s) in %s, trailing %q", d.Tok, len(d.Specs), filepath.Base(pkg.Position(d.Pos()).Filename), strings.Join(pkg.Comment(obj.Pos()), "|"))
+	default:
+		vals["decl"] = fmt.Sprintf("%T", d)
+	}
 	// a map-valued Value with many keys: the dumper must emit it in a fixed order
 	c.RenderT("var _ = @v\n\n", snippet.Arg("v", snippet.Value(vals)))
 	if named.Obj().Name() == "Anchor" {
